@@ -229,12 +229,18 @@ def run(res, replay=None, visit_only=False):
                                    "non-constant members are `%s`" % (op, b2, cvexp[j]))
                     elif op.startswith("ctrav "):
                         k = int(op.split()[1])
-                        full = mout[mo + 2 + 1].split(" c=")[0].split()
+                        full = mout[mo + 2 + 1]
+                        full = full[:full.rfind("c=")].split() if "c=" in full else full.split()
                         want = " ".join(full[:k])
                         got = b2.partition(" | ")[0]
                         got = got[:got.rfind("c=")].strip() if "c=" in got else got
+                        ms = a[:a.rfind("c=")].strip() if "c=" in a else a.replace("STOP", "").strip()
                         if got.strip() != want.strip():
                             bad = ("visit-stop", "stop at callback %d: events `%s`, expected exactly the first %d: `%s`" % (k, got[-160:], k, want[-160:]))
+                        elif ms != got.strip():
+                            bad = ("visit-stop-model", "stop at callback %d: implementation `%s`, CursorStop model `%s`" % (k, got[-160:], ms[-160:]))
+                        elif ("STOP" in a) != (k < len(full)):
+                            bad = ("visit-stop-model", "stop at callback %d of %d: model outcome `%s`" % (k, len(full), a[-60:]))
                     elif op.split()[0] in ("getft", "getbt", "ginfot", "dinfot"):
                         named = iout[io + 2 + j - 1]
                         if b2 != named:
